@@ -590,3 +590,38 @@ def parse_probe(o):
     return d
 
 
+
+
+def shape_of_listing(listing):
+    """the shape letters of a directory from the harness listing ('m.db:<size>:<sha>,Database2/,...')"""
+    if listing == "(no directory)":
+        return "N0"
+    st = {"m.db": "a", "p.db": "a", "Database2/m.db": "a"}
+    d2 = False
+    extra = []
+    if listing != "(empty)":
+        for it in listing.split(","):
+            if it == "Database2/":
+                d2 = True
+                continue
+            name, size, _ = it.rsplit(":", 2)
+            if name not in st:
+                extra.append(name)
+                continue
+            st[name] = "z" if size == "0" else ("g" if size == "4099" else "v")
+    d = "a" if not d2 else ("e" if st["Database2/m.db"] == "a" else st["Database2/m.db"])
+    return st["m.db"] + st["p.db"] + d + ("+" + "+".join(extra) if extra else "")
+
+
+def answer_class(a, detail=True):
+    """harness answer of a c16.probe -> the directory model's alphabet"""
+    if a.startswith("throw:"):
+        n = a[6:]
+        if n.startswith("sqlite::"):
+            return "throw:sqlite_error"
+        return "throw:" + n.split("::")[-1]
+    if a in ("0", "1", "created"):
+        return a
+    if a.startswith("loaded_schema_"):
+        return a if detail else "loaded"
+    return "loaded"       # load_and_observe: a full observation of the loaded library
